@@ -1150,13 +1150,18 @@ def st_open(draw, case_ctx, own_params, depth, upto, closed, allow_known):
         return ["tv", draw(st.sampled_from(plain_like))]
     if not closed and plain_like and choice < 14 and depth > 0:
         inner = ["tv", draw(st.sampled_from(plain_like))]
-        w = draw(_range(4))
+        w = draw(_range(6))
         if w == 0:
             return ["list", inner]
         if w == 1:
             return ["opt", inner]
         if w == 2:
             return ["dict", inner]
+        if w == 4:
+            # under the builtin spelling this is ``list[T] | None``: a types.UnionType whose member holds the variable
+            return ["opt", ["list", inner]]
+        if w == 5:
+            return ["opt", ["dict", inner]] if draw(st.booleans()) else ["opt", ["tup", [inner, draw(st_closed(0))]]]
         other = draw(st_closed(0))
         return ["tup", [inner, other] if draw(st.booleans()) else [other, inner]]
     if not closed and TVT in own_params and choice < 16 and depth > 0:
